@@ -172,19 +172,45 @@ def rand_triangle_cells(rng, nondyadic=False):
     fields = rng.sample(gen.FIELDS, rng.randrange(1, 4))
     cells = []
     rows = None
+    # "subset" mode: all slices share the periods, each slice observes its own subset of the
+    # evaluation dates — incremental cells of different slices then share (period, evaluation date)
+    # but have different prev_evaluation_date (e.g. a semi-annual and an annual slice)
+    subset = n_slices > 1 and rng.random() < 0.45
     for m in metas:
-        if rows is None or rng.random() < 0.5:
-            rows = gen.layout_daily(rng) if layout == "daily" else gen.layout_regular(
-                rng, shape="ragged" if layout == "ragged" else None)
-        cs = gen.cells_from_layout(rng, rows, m, kind=kind, fields=fields, vkind="int")
+        if rows is None or (not subset and rng.random() < 0.5):
+            if subset and layout != "daily":
+                rows = gen.layout_regular(rng, n_periods=rng.randrange(1, 4), n_lags=rng.randrange(3, 6),
+                                          shape="square")
+            else:
+                rows = gen.layout_daily(rng, n_evals=rng.randrange(2, 5)) if layout == "daily" else gen.layout_regular(
+                    rng, shape="ragged" if layout == "ragged" else None)
+        use = rows
+        if subset:
+            use = [(ps, pe, sorted(rng.sample(evs, rng.randrange(1, len(evs) + 1)))) for ps, pe, evs in rows]
+        cs = gen.cells_from_layout(rng, use, m, kind=kind, fields=fields, vkind="int")
         for c in cs:
             fs = [f for f in fields if rng.random() < 0.8]
             rng.shuffle(fs)
             cells.append(c.replace(values={f: rand_json_value(rng, nondyadic) for f in fs}))
-    if len(cells) > 30:
+    if len(cells) > 30 and not subset:
         cells = rng.sample(cells, 30)
     rng.shuffle(cells)
     return cells
+
+
+def shared_coordinates_differ_in_prev(cells):
+    """number of (period, evaluation date) coordinates that occur in two slices with different
+    prev_evaluation_date (what a reader keyed on the cumulative coordinates would confuse)"""
+    seen = {}
+    n = 0
+    for c in cells:
+        if not isinstance(c, IncrementalCell):
+            return 0
+        k = (c.period_start, c.period_end, c.evaluation_date)
+        if k in seen and seen[k] != c.prev_evaluation_date:
+            n += 1
+        seen.setdefault(k, c.prev_evaluation_date)
+    return n
 
 
 def iso(d, lenient=False):
@@ -328,6 +354,8 @@ def correspondence(ctx):
             stream = "nondyadic" if nd else "roundtrip"
             ctx.count(f"{stream}/slices={desc.get('slices')}")
             ctx.count(f"{stream}/kind={desc.get('kind', 'empty')}")
+            if shared_coordinates_differ_in_prev(t.cells):
+                ctx.count(f"{stream}/slices share (period, evaluation date) with different prev_evaluation_date")
             for c in t.cells:
                 for v in c.values.values():
                     ctx.count(f"{stream}/value={'ndarray:' + v.dtype.name if isinstance(v, np.ndarray) else type(v).__name__}")
